@@ -22,6 +22,7 @@ META = {
                   "posed to one solver in different orders, are compared with the oracle; the engine-level theorems live with "
                   "C10/C02 (Engine/RecEngine.v).  Closures, coroutines, opaque types, fn-def types and lifetimes are not modelled.",
     "design_ref": "DESIGN.md §4 C05",
+    "bins": ["solve", "rules"],
     "assumptions": [
         "lifetimes are erased in the model (generated programs cannot produce region constraints: impl headers use fresh lifetime parameters)",
         "the `rules` harness renders chalk_ir clauses faithfully; clauses with a FromEnv condition are ignored (empty environment)",
@@ -136,10 +137,21 @@ def run(ctx):
     ok, why = ctx.proof_stage("Props.C05", ["auto_clauses_spec", "auto_fixed_point", "auto_clause_set", "impl_provided_for_spec",
                                             "coinductive_spec", "evalR_correct"])
     if not ok:
-        ctx.violation({"kind": "proof", "broken": why}, no_input=True)
+        # a theorem no longer checks: look for a concrete failing input first (the oracle functions may
+        # still build); if none is found, report the broken theorem itself
+        try:
+            _body(ctx)
+        except Exception as e:  # noqa: BLE001
+            core.log("search for a failing input did not complete: %s" % e)
+        if not ctx.violations:
+            ctx.violation({"kind": "proof", "broken": why}, no_input=True)
         return
+    _body(ctx)
+
+
+def _body(ctx):
     core.build_harness(bins=["solve", "rules"])
-    progs, cases = rl.gen_programs(ctx, "auto", ctx.n(36, 1500), ctx.n(7, 12))
+    progs, cases = rl.gen_programs(ctx, "auto", ctx.n(36, 400), ctx.n(7, 12))
     # corpus programs ride along as additional programs
     for p, gs in corpus_cases():
         p.text, p.model = rg.to_text(p), rg.to_model(p)
@@ -167,7 +179,10 @@ def run(ctx):
     cases, defs = rl.main_pipeline(ctx, progs, cases, cpu=ctx.n(3, 8))
     cnt, fam, ctors = rl.judge(ctx, "C05", progs, cases, defs)
     verdicts = {(c.pidx, c.atom): c.oracle for c in cases}
+    import time
+    th = time.time()
     hcnt = run_histories(ctx, progs, defs, hs, verdicts, cpu=ctx.n(3, 8))
+    ctx.cov.setdefault("phase_s", {})["histories"] = round(time.time() - th, 1)
 
     n_ver = cnt["oracle_true"] + cnt["oracle_false"]
     ctx.cov["rule"] = ("evaluations = (solver, program, goal) triples whose Unique/NoSolution answer was compared with the verified oracle "
